@@ -364,6 +364,7 @@ type checker struct {
 	rep      *report.Report
 	pend     []pending
 	pendCost []pendingCost
+	skipModel bool // values the driver would be slow on: reference codec and oracles only
 }
 
 func lineprotoRun(ops []string) ([]string, error) { return lineproto.Run(*driver, ops) }
@@ -373,6 +374,9 @@ func reportDis(kind, input, impl, model string) report.Disagreement {
 }
 
 func (c *checker) expect(kind, op, impl string) {
+	if c.skipModel {
+		return
+	}
 	c.pend = append(c.pend, pending{op: op, impl: impl, kind: kind, input: op})
 }
 
@@ -471,8 +475,78 @@ func c02Value(c *checker, v *wv.V, how string) {
 		c.oracle("C02 StreamRead(Encode v)≠v", fmt.Sprintf("D %d %s", v.T, hx(b)), s, "streaming read of Encode(v) is not v: want "+want)
 	}
 	c.expect("C02 stream read vs model dec", fmt.Sprintf("D %d %s", v.T, hx(b)), s)
+	if c02ReuseN++; c02ReuseN%4 == 0 || len(b) > 60000 {
+		c02Reuse(c, v, b, text)
+	}
+	c02Prev = b
 	if len(c.pend) > 20000 {
 		c.flush()
+	}
+}
+
+var (
+	c02ReuseN int
+	c02Prev   []byte
+)
+
+// c02Reuse: a decoded value stays what it was. The value is decoded (containers still lazy),
+// encoded, forced with wire.EvaluateValue, the previous message is decoded and forced in between,
+// and then the value is encoded and read once more: both encodings must be the original bytes and
+// the reading the original value. (A writer or an evaluator that hands a container of the value
+// back to a pool, or a container that reports another size than it yields, shows up here.)
+func c02Reuse(c *checker, v *wv.V, b []byte, text string) {
+	input := fmt.Sprintf("reuse %d %s", v.T, hx(b))
+	c.rep.Hist("reuse-after-encode-and-evaluate", "yes")
+	var got string
+	p := safely(func() {
+		w, err := binary.Default.Decode(bytes.NewReader(b), wire.Type(v.T))
+		if err != nil {
+			got = "decode failed: " + err.Error()
+			return
+		}
+		var e1, e2 bytes.Buffer
+		if err := binary.Default.Encode(w, &e1); err != nil {
+			got = "first Encode of the decoded value failed: " + err.Error()
+			return
+		}
+		if err := wire.EvaluateValue(w); err != nil {
+			got = "EvaluateValue failed: " + err.Error()
+			return
+		}
+		var keep []wire.Value
+		for i := 0; i < 3; i++ { // other decodes in between: they take whatever a pool has to offer
+			for _, other := range [][]byte{c02Prev, b} {
+				if len(other) == 0 || len(other) > 4096 {
+					continue
+				}
+				if w2, err := binary.Default.Decode(bytes.NewReader(other), wire.TStruct); err == nil {
+					_ = wire.EvaluateValue(w2)
+					keep = append(keep, w2)
+				}
+			}
+		}
+		if err := binary.Default.Encode(w, &e2); err != nil {
+			got = "second Encode of the decoded value failed: " + err.Error()
+			return
+		}
+		back, err := wv.FromWire(w)
+		switch {
+		case !bytes.Equal(e1.Bytes(), b):
+			got = fmt.Sprintf("first Encode of the decoded value gives %d bytes that are not the input", e1.Len())
+		case !bytes.Equal(e2.Bytes(), b):
+			got = fmt.Sprintf("second Encode of the decoded value (after EvaluateValue and other decodes) gives %d bytes that are not the input", e2.Len())
+		case err != nil:
+			got = "reading the decoded value again failed: " + err.Error()
+		case back.Text() != text:
+			got = "the decoded value reads differently after EvaluateValue and other decodes"
+		}
+		runtime.KeepAlive(keep)
+	})
+	if p != "" {
+		got = "panic " + p
+	}
+	if got != "" {
+		c.oracle("C02 a decoded value does not stay what it was", input, got, "Decode, Encode, EvaluateValue, other decodes, Encode, read: both encodings and the reading must be the original")
 	}
 }
 
@@ -591,6 +665,31 @@ func runC02(c *checker, r *rng.R) {
 			c02Value(c, &wv.V{T: wv.TStruct, Fields: []wv.Field{{ID: 1, V: l}, {ID: 2, V: m}, {ID: 3, V: scalar(wv.TI32, i)}}}, "long-fixed-width-container")
 			c.flush()
 		}
+		// containers of more than 2^16 items (a size kept in 16 bits, or capped, shows up here);
+		// against the reference codec and the reuse probe only: the driver is slow on them
+		c.skipModel = true
+		for _, n := range []int{65536, 65537} {
+			l := &wv.V{T: wv.TList, ET: wv.TI8}
+			for j := 0; j < n; j++ {
+				l.Items = append(l.Items, scalar(wv.TI8, j))
+			}
+			c02Value(c, &wv.V{T: wv.TStruct, Fields: []wv.Field{{ID: 1, V: l}, {ID: 2, V: scalar(wv.TI32, n)}}}, "container-over-2^16-items")
+			c.flush()
+		}
+		{
+			m := &wv.V{T: wv.TMap, KT: wv.TI32, ET: wv.TBool}
+			for j := 0; j < 65537; j++ {
+				m.Items = append(m.Items, scalar(wv.TI32, j), scalar(wv.TBool, j))
+			}
+			c02Value(c, m, "container-over-2^16-items")
+			st := &wv.V{T: wv.TSet, ET: wv.TI16}
+			for j := 0; j < 65540; j++ {
+				st.Items = append(st.Items, scalar(wv.TI16, j))
+			}
+			c02Value(c, st, "container-over-2^16-items")
+			c.flush()
+		}
+		c.skipModel = false
 		for n := 120; n <= 300; n++ { // every length around typical scratch-buffer sizes
 			b := r.Bytes(n)
 			c02Value(c, &wv.V{T: wv.TStruct, Fields: []wv.Field{{ID: 1, V: &wv.V{T: wv.TBinary, Bin: b}}, {ID: 2, V: scalar(wv.TI64, n)}}}, "binary-lengths-120-300")
@@ -600,7 +699,7 @@ func runC02(c *checker, r *rng.R) {
 		}
 	}
 	c.flush()
-	c.rep.Rule = "values: bounded-exhaustive enumeration of small shapes + random typed values (all 11 types, nested, raw element-type bytes on empty containers, extreme ints, special doubles) + binaries at the 1 MiB threshold, two over-threshold binaries per value, long maps/lists/sets of fixed-width items (300–6000 entries), every binary length 120–300 and around powers of two up to 64 KiB; random-access decode through bytes.Reader and through a ReaderAt that returns io.EOF together with the last bytes; every third value preceded by an Encode and a stream-writer sequence of the same value into a destination that fails half-way; stream reads and skips (every other non-seekable reader with a Seek method that always fails, like the read end of a pipe; binaries alternately through ReadBinary and ReadString) under rotating segmentation, every other reader returning its last byte together with io.EOF; non-trivial = has more than one node or is a double/binary; distinct by canonical text"
+	c.rep.Rule = "values: bounded-exhaustive enumeration of small shapes + random typed values (all 11 types, nested, raw element-type bytes on empty containers, extreme ints, special doubles) + binaries at the 1 MiB threshold, two over-threshold binaries per value, long maps/lists/sets of fixed-width items (300–6000 entries; four of 2^16 … 2^16+4 items, without the model), every binary length 120–300 and around powers of two up to 64 KiB; random-access decode through bytes.Reader and through a ReaderAt that returns io.EOF together with the last bytes; every third value preceded by an Encode and a stream-writer sequence of the same value into a destination that fails half-way; stream reads and skips (every other non-seekable reader with a Seek method that always fails, like the read end of a pipe; binaries alternately through ReadBinary and ReadString) under rotating segmentation, every other reader returning its last byte together with io.EOF; every fourth value (and every large one) is also decoded, encoded, forced with wire.EvaluateValue, followed by other decodes, and encoded and read again: it must still be the original; non-trivial = has more than one node or is a double/binary; distinct by canonical text"
 }
 
 // ---- C03 ----
